@@ -94,12 +94,13 @@ def check(sc, tr, rc):
     stop_call = tr.stop[0] if tr.stop else None
     last_cycle_before_stop = max([t[1] for t in T if stop_call is None or t[3] < stop_call] + [-1])
     known = []
-    for lab, made, when, kind in tr.requests:
-        if kind in ("due", "wall") and past_us >= end_us:
+    for lab, made, when, kind, wall_at_req in tr.requests:
+        if kind in ("due", "wall") and (past_us >= end_us or (wall_at_req is not None and wall_at_req >= end_us)):
             # known finding F14: the wall clock has already passed the end time when the alarm is requested
             if not evals.get(lab):
-                known.append(f"{lab}: wall-clock alarm for {when} us (before the end time {end_us} us) was dropped: the run started "
-                             f"{past_us} us in the past, so the alarm was re-timed to the wall clock, beyond the end time")
+                known.append(f"{lab}: wall-clock alarm for {when} us (before the end time {end_us} us) was dropped: the wall clock "
+                             f"was already beyond the end time when it was requested (run started {past_us} us in the past, wall clock "
+                             f"at the request {wall_at_req} us), so the alarm was re-timed beyond the end time")
             continue
         if kind == "wall":
             # exact when still in the future at the request, else 'next cycle': never earlier than requested, and delivered
